@@ -103,6 +103,51 @@ fn scen(_spec: RunSpec) -> ScenFut {
         ing.run_flush_timer().await;
         let all = batch(variant, &all_rows);
         let n_chunks = meta.list_chunks().await.map(|c| c.len()).unwrap_or(0);
+        // configuration "catalog carries statistics": truthful per-column min/max attached through the public
+        // save_chunk_metadata (the shipped write path stores none); an unsound statistics prune then shows up
+        // as a wrong answer
+        let with_stats = !use_local && sim::w_bool(35);
+        if with_stats {
+            let oc = ObjectStoreMetadataClient::new(SimStore::new(inner.clone(), 7), ObjectStoreMetadataConfig::default());
+            if let Ok(mut cm) = oc.load_chunk_metadata().await {
+                for (path, e) in cm.iter_mut() {
+                    if let Ok(bs) = read_chunk(&inner, path).await {
+                        let mut vi: Vec<i64> = Vec::new();
+                        let mut ms: Vec<String> = Vec::new();
+                        let mut nulls = false;
+                        for b in &bs {
+                            use arrow_array::cast::AsArray;
+                            use arrow_array::Array;
+                            if let Some(c) = b.column_by_name("value_i64") {
+                                if let Some(a) = c.as_primitive_opt::<arrow_array::types::Int64Type>() {
+                                    for i in 0..a.len() {
+                                        if a.is_null(i) { nulls = true } else { vi.push(a.value(i)) }
+                                    }
+                                }
+                            }
+                            if let Some(c) = b.column_by_name("metric_name") {
+                                if let Some(a) = c.as_string_opt::<i32>() {
+                                    for i in 0..a.len() { ms.push(a.value(i).to_string()) }
+                                } else if let Some(a) = c.as_string_view_opt() {
+                                    for i in 0..a.len() { ms.push(a.value(i).to_string()) }
+                                }
+                            }
+                        }
+                        if let (Some(mn), Some(mx)) = (vi.iter().min(), vi.iter().max()) {
+                            e.column_stats.insert("value_i64".into(), cardinalsin::metadata::ColumnStats { min: serde_json::json!(mn), max: serde_json::json!(mx), has_nulls: nulls });
+                        }
+                        if let (Some(mn), Some(mx)) = (ms.iter().min(), ms.iter().max()) {
+                            e.column_stats.insert("metric_name".into(), cardinalsin::metadata::ColumnStats { min: serde_json::json!(mn), max: serde_json::json!(mx), has_nulls: false });
+                        }
+                    }
+                }
+                if oc.save_chunk_metadata(&cm).await.is_ok() {
+                    sim::probe("catalog-carries-statistics");
+                }
+            }
+            // the query path's catalog client must not serve the version cached before the statistics were attached
+            tokio::time::sleep(Duration::from_secs(61)).await;
+        }
         // query node
         let mut qc = QueryConfig::default();
         qc.l2_cache_dir = None;
@@ -228,6 +273,9 @@ fn scen(_spec: RunSpec) -> ScenFut {
 
 /// Structural cause tag of a failing query (from the query text, not from the trace).
 fn classify(sql: &str, features: &[&'static str]) -> &'static str {
+    if sql.contains("value_i64 <=") || sql.contains("value_i64 >=") {
+        return "value-predicate-inclusive-bound";
+    }
     let has_eq = sql.contains("timestamp = ");
     if has_eq && (sql.contains(" OR ") || sql.matches("timestamp").count() > 1) {
         return "timestamp-equality-combined";
